@@ -26,6 +26,7 @@ const (
 )
 
 type c16Plugin struct {
+	cfgBad   atomic.Int32
 	cfgOK    atomic.Int32
 	synced   atomic.Int32
 	mu       sync.Mutex
@@ -34,6 +35,11 @@ type c16Plugin struct {
 }
 
 func (p *c16Plugin) Configure(_ context.Context, config, _, _ string) (api.EventMask, error) {
+	if config == "badmask" {
+		// the handler itself succeeds, but asks for an event this plugin has no handler for
+		p.cfgBad.Add(1)
+		return api.EventMask(1) << (api.Event_CREATE_CONTAINER - 1), nil
+	}
 	if config == "early" {
 		// still being handled when the Start that it belongs to has already failed
 		time.Sleep(150 * time.Millisecond)
@@ -81,6 +87,8 @@ type dialSpec struct {
 	PartialSync bool `json:"partial_sync,omitempty"`
 	// EarlyConfigure: the runtime sends Configure as soon as the registration arrives, then refuses the registration
 	EarlyConfigure bool `json:"early_configure_then_refuse,omitempty"`
+	// BadMask: the runtime's configuration makes the plugin subscribe to an event it cannot handle
+	BadMask bool `json:"bad_mask,omitempty"`
 	// SlowConfigure: the runtime waits this long after the registration before it configures the plugin
 	SlowConfigure time.Duration `json:"slow_configure,omitempty"`
 }
@@ -183,6 +191,12 @@ func (e *c16Env) dial(string) (net.Conn, error) {
 		defer cancel()
 		s.cfgSent.Store(true)
 		// non-zero timeouts: the stub adopts whatever it is sent
+		if spec.BadMask {
+			_, err := rr.Plugin.Configure(ctx, &api.ConfigureRequest{Config: "badmask", RuntimeName: "rt", RuntimeVersion: "1", RegistrationTimeout: 800, RequestTimeout: 500})
+			s.err = fmt.Errorf("configuration with an unhandled event answered: %v", err)
+			rr.Close() // a runtime drops a plugin whose configuration failed
+			return
+		}
 		if _, err := rr.Plugin.Configure(ctx, &api.ConfigureRequest{Config: "c", RuntimeName: "rt", RuntimeVersion: "1", RegistrationTimeout: 800, RequestTimeout: 500}); err != nil {
 			s.err = err
 			return
@@ -432,13 +446,13 @@ func c16History(res *ev.Result, ops []string, tag string, hookDelay bool) {
 				return
 			}
 			established++
-		case "start-unreachable", "start-refused", "start-silent", "start-early-configure-refused":
+		case "start-unreachable", "start-refused", "start-silent", "start-early-configure-refused", "start-bad-mask":
 			if cur != nil {
 				continue
 			}
 			var err error
 			cfgBefore := e.plug.cfgOK.Load()
-			e.setNext(map[string]dialSpec{"start-unreachable": {DialErr: true}, "start-refused": {Refuse: true}, "start-silent": {Silent: true}, "start-early-configure-refused": {EarlyConfigure: true}}[op])
+			e.setNext(map[string]dialSpec{"start-unreachable": {DialErr: true}, "start-refused": {Refuse: true}, "start-silent": {Silent: true}, "start-early-configure-refused": {EarlyConfigure: true}, "start-bad-mask": {BadMask: true}}[op])
 			if !x.timed("Start ("+op+")", "start."+strings.TrimPrefix(op, "start-"), func() { err = e.st.Start(context.Background()) }) {
 				return
 			}
@@ -585,6 +599,8 @@ func runC16(c *ev.ChildEnv, res *ev.Result) {
 		{"start-partial-sync", "start", "event"},
 		{"start-early-configure-refused", "pause", "start-slow", "event"},
 		{"start-early-configure-refused", "start-slow", "event"},
+		{"start-bad-mask", "start", "event"},
+		{"start", "stop", "start-bad-mask", "wait", "start-slow", "event", "pause", "event"},
 		{"start-early-configure-refused", "start-early-configure-refused", "start-slow", "event", "pause", "event"},
 		{"start", "stop", "start-early-configure-refused", "start-early-configure-refused", "pause", "start-slow", "event", "pause", "event"},
 		{"start", "stop", "start-partial-sync", "start-partial-sync", "start", "event", "pause", "event"},
@@ -592,7 +608,7 @@ func runC16(c *ev.ChildEnv, res *ev.Result) {
 		{"wait", "stop", "start", "event", "loss", "wait", "start-unreachable", "start", "event"},
 		{"start", "stop", "start", "stop", "start", "stop", "start", "pause", "event"},
 	}
-	opsPool := []string{"start", "start", "start-slow", "stop", "loss", "wait", "event", "event", "pause", "start-unreachable", "start-refused", "start-partial-sync", "start-early-configure-refused"}
+	opsPool := []string{"start", "start", "start-slow", "stop", "loss", "wait", "event", "event", "pause", "start-unreachable", "start-refused", "start-partial-sync", "start-early-configure-refused", "start-bad-mask"}
 	hn := 0
 	addHist := func(ops []string) {
 		hn++
